@@ -60,7 +60,8 @@ def expected_value(inst):
             memo[i] = i * 10 + (4 if inst['needm'][i - 1] else 0) + \
                 sum(val(j) for a, j in inst['edges'] if a == i)
         return memo[i]
-    return 1000 + sum(val(j) for j in inst['exedeps'])
+    # every whole-archive library carries one object nothing references: it must be linked in all the same
+    return 1000 + sum(val(j) for j in inst['exedeps']) + sum(1 for k in inst['kinds'] if k == 'whole')
 
 
 def render(inst, idx, dirs, reverse_order, cxx):
@@ -114,16 +115,21 @@ def render(inst, idx, dirs, reverse_order, cxx):
         elif kind == 'dual':
             lines.append("%s = library(%r, [%r]%s%s)" % (libvar(i), name, src, libs, lo))
         else:
-            lines.append("%s = whole_archive(static_library(%r, [%r]%s%s))" % (libvar(i), name, src, libs, lo))
+            xsrc = '%s/l%dx.c' % (pre, i)
+            files[xsrc] = 'int %s_x%d = 1;\n' % (pre, i)
+            lines.append("%s = whole_archive(static_library(%r, [%r, %r]%s%s))" % (libvar(i), name, src, xsrc, libs, lo))
     deps = list(inst['exedeps'])
     if reverse_order:
         deps.reverse()
     ext = 'cpp' if cxx == 'exe' else 'c'
+    whole = [i for i in range(1, n + 1) if inst['kinds'][i - 1] == 'whole']
     decls = ''.join(decl('%s_f%d' % (pre, j)) + '\n' for j in deps)
+    decls += ''.join('extern int %s_x%d __attribute__((weak));\n' % (pre, i) for i in whole)
     if ext == 'cpp':
         decls = 'extern "C" {\n' + decls + '}\n'
     files['%s/main.%s' % (pre, ext)] = ('#include <stdio.h>\n%sint main(void) { printf("%%d\\n", 1000%s); return 0; }\n'
-                                        % (decls, ''.join(' + %s_f%d()' % (pre, j) for j in deps)))
+                                        % (decls, ''.join(' + %s_f%d()' % (pre, j) for j in deps) +
+                                           ''.join(' + (&%s_x%d ? %s_x%d : 0)' % (pre, i, pre, i) for i in whole)))
     d = dirs[0]
     ename = (pre + '/' + d + '/' if d else pre + '/') + 'prog'
     lines.append("executable(%r, [%r], libs=[%s])" % (ename, '%s/main.%s' % (pre, ext),
